@@ -385,3 +385,23 @@ PROPS["C10"] = {
         {"test": "^TestConcurrentPrograms$", "checks": 1200, "shards": 4, "race": True, "gomaxprocs": 4, "timeout": 1800},
     ],
 }
+
+PROPS["C11"] = {
+    "pkg": "c11",
+    "technique": "stateful property-based testing (rapid state machine over lifecycle calls, per interceptor) with a watchdog on every call and goroutine/emission observation after Unbind and Close",
+    "level_text": "For a generated interceptor, a generated sequence of BindRTCPWriter/BindRTCPReader/Bind*Stream over three SSRCs per direction/traffic/Unbind*/re-bind/Close (optionally while another "
+                  "goroutine keeps traffic going) is executed with 1 ms intervals; every call must return within the watchdog; after Unbind at most one more per-stream message may appear in 5 intervals; a "
+                  "re-bound SSRC must start from fresh state (sender report count, receiver report loss/highest, NACKs, jitter-buffer playout); after Close nothing is written and the goroutine count returns "
+                  "to the baseline. Exploration, with shrinking to a minimal call sequence.",
+    "level_note": "trusts: 'never blocks indefinitely' is decided as 'does not return within 10 s'; media traffic is only generated once the RTCP writer is bound (feedback generators start their loops then); "
+                  "transport-wide feedback is not counted as a per-stream message; the jitter-buffer interceptor is driven with one stream (it has one buffer); two defects are listed known findings",
+    "assumptions": ["Close is called once", "Bind* is not called twice for a bound SSRC"],
+    "quick": [
+        {"test": "^TestRegress", "timeout": 200},
+        {"test": "^TestLifecycle$", "checks": 250, "steps": 40, "shards": 8, "shrinktime": "15s", "timeout": 600},
+    ],
+    "thorough": [
+        {"test": "^TestRegress", "timeout": 200},
+        {"test": "^TestLifecycle$", "checks": 1200, "steps": 50, "shards": 15, "shrinktime": "30s", "timeout": 1800},
+    ],
+}
